@@ -844,6 +844,20 @@ impl<'a> Sc<'a> {
                     done!(k as i64)
                 }
             }
+            Op::PanicInCellMut { c } => {
+                let l = self.cell_loc(c);
+                race!(Self::access(&mut s.ck, t, l, true));
+                s.panicked = true;
+                out.push(Step::Done(s));
+                return;
+            }
+            Op::PanicInAtomMut { a } => {
+                let l = self.atom_loc(a);
+                race!(Self::access(&mut s.ck, t, l, true));
+                s.panicked = true;
+                out.push(Step::Done(s));
+                return;
+            }
             Op::PanicIf { v } => {
                 let last = s.res[t].last().cloned().unwrap_or(0);
                 if v < 0 || last == v as i64 {
